@@ -898,6 +898,26 @@ eng_harness!(c02_sweepstep_ttl_idx, 5, { sweeper_step(true, true); });
 eng_harness!(c02_sweepstep_ttl_noidx, 5, { sweeper_step(true, false); });
 
 // ---------------------------------------------------------------- C08 / C18: FLUSHDB
+/// Two connections WATCH the same key; the key is (or is not) modified; one of them UNWATCHes.
+/// The other connection's EXEC check must still see the modification - and must not see one
+/// that never happened.
+eng_harness!(c08_two_watchers_unwatch, 5, {
+    let e = mk_engine1();
+    let c: [u8; 2] = kani::any();
+    put_raw(&e, 0, KA, Value::String(vec![c[0], c[1]]), None);
+    let base1 = e.register_watch(0, KA).ok().unwrap();
+    let base2 = e.register_watch(0, KA).ok().unwrap();
+    let modify: bool = kani::any();
+    if modify {
+        let v: u8 = kani::any();
+        assert!(e.append(0, KA.to_vec(), vec![v]).is_ok());
+    }
+    assert!(e.unregister_watch(0, KA).is_ok());
+    kani::cover!(modify, "the watched key was modified before the other connection's UNWATCH");
+    assert!(matches!(e.was_modified_since(0, KA, base2), Ok(m) if m == modify), "C08: another connection's UNWATCH must not hide (or invent) a modification of a key this connection watches");
+    let _ = base1;
+    std::mem::forget(e);
+});
 eng_harness!(c08_flushdb_watch, 5, {
     let e = mk_engine2();
     let c: u8 = kani::any();
